@@ -334,8 +334,11 @@ class LogicalLinkController(object):
             send_pax.miu = self.cfg['recv-miu']
         if self.cfg['send-lto'] != 100:
             send_pax.lto = self.cfg['send-lto']
-        if self.cfg['send-lsc'] != 0:
-            send_pax.lsc = self.cfg['send-lsc']
+        # cfg['send-lsc'] is the local value only until the first activation,
+        # it then holds the link service class of the remote device
+        local_lsc = self.cfg.setdefault('local-lsc', self.cfg['send-lsc'])
+        if local_lsc != 0:
+            send_pax.lsc = local_lsc
         if self.cfg['llcp-sec']:
             send_pax.dpc = 1
 
